@@ -54,13 +54,16 @@ RULE = (
     "loaded with Cid.read and, when it loads, the valid rows are written with cutplace.Writer (delimited, fixed) and "
     "the valid data is read by path with cutplace.rows in modes raise and yield, from a stream in mode yield, and "
     "with cutplace.validate; then applications.main(['cutplace', cid.csv, data]) runs on the same material. (2) "
-    "cid-2: two cells at once, sampled by Hypothesis (small sample in quick). (3) data: the same pool in every cell "
+    "cid-2: two cells at once - exhaustively the family (example of an F row removed, length or rule of that row "
+    "hostile) so that hostile rules reach the data stages, everything else sampled by Hypothesis (small sample in "
+    "quick). (3) data: the same pool in every cell "
     "of every row of the valid data (delimited: properly quoted and spliced raw; fixed: cut / padded to the width and "
     "spliced raw; xlsx / ods: as cell text), read, validated and written under the unmodified CID. (4) bytes: csv and "
-    "fixed bytes in utf-8, ascii, cp1252, utf-16 with one byte inserted / replaced (FF 80 81 C3) or the file cut at "
+    "fixed bytes in utf-8, ascii, cp1252, utf-16 with one byte inserted / replaced (FF 81 C3) or the file cut at "
     "every offset, read by path under the CID declaring that encoding. (5) containers: the generated ods and xlsx "
-    "and every .xls / .xlsx / .ods under tests/data cut at every offset (stride 1 below 2 kB, else 64) and with single "
-    "bit flips (Hypothesis), read by path. Oracle: only InterfaceError may escape Cid.read, only DataError (and "
+    "and every .xls / .xlsx / .ods under tests/data cut at every offset (stride 1 below 2 kB, else 64), with every "
+    "single bit of the zip directory (last 128 bytes) / of the .xls header (first 80 bytes) flipped, and with single "
+    "bit flips anywhere (Hypothesis), read by path. Oracle: only InterfaceError may escape Cid.read, only DataError (and "
     "subclasses) the data stages, main never returns 4. A case is non-trivial when a cutplace error was reached or "
     "the CID loaded with a changed parse; distinct by its JSON."
 )
@@ -70,7 +73,7 @@ ASSUMPTIONS = [
     "comparison / arithmetic operators except ** << >>, brackets, quotes, blanks); length cells get no whole number "
     "in 10**4 .. 2**63; RegEx rules no nested quantifiers; RegEx / Pattern rules not the 10 kB text - harness "
     "safety, not a claim about cutplace",
-    "a case that exceeds 20 s is counted as class 'timeout' and not judged (cost is not one of the listed properties)",
+    "a case that exceeds 3 s (observed: xlrd spinning on a damaged sector chain of an .xls file) is counted as class 'timeout' and not judged (cost is not one of the listed properties)",
     "whether an accepted hostile value is *rightly* accepted, and which cutplace error class is chosen among the "
     "permitted ones, is neutral here (C02, C09, C11 judge that)",
     "within one case the same (exception type, innermost cutplace frame) is reported for the first stage showing "
@@ -84,43 +87,41 @@ EXHAUSTIVE = True
 EXHAUSTIVE_SCOPE = (
     "pool x every cell of every D/F/C row of the 4 base CIDs, one at a time; pool x every cell of the valid data of "
     "the 4 formats; byte insert/replace/cut at every offset of csv and fixed data in 4 encodings; truncation of every "
-    "container at every offset of the stated stride (bit flips and cell pairs are sampled)"
+    "container at every offset of the stated stride and all single bit flips in its directory / header region (other "
+    "bit flips and other cell pairs are sampled)"
 )
 
 FORMATS = ("delimited", "fixed", "excel", "ods")
-TIME_LIMIT_S = 20
+TIME_LIMIT_S = 3
 LONG = {"repeat": "x", "n": 10240}
 
 # -- the hostile pool --------------------------------------------------------------------------------------
 POOL = [
     ("empty", ""), ("blank", " "), ("blanks", "    "),
     ("dq-open", '"abc'), ("sq-open", "'abc"), ("dq-lone", '"'), ("sq-lone", "'"), ("triple-open", '"""abc'),
-    ("dq-open-comma", '"a, b'), ("quoted-backslash", '"\\"'),
-    ("paren-open", "("), ("paren-close", ")"), ("bracket-open", "["), ("bracket-close", "]"), ("brace-open", "{"),
-    ("brace-close", "}"), ("paren-number", "(1"), ("brackets-mixed", "(]"),
-    ("backslash", "\\"), ("backslash-n", "a\\"),
+    ("quoted-backslash", '"\\"'),
+    ("paren-open", "("), ("paren-close", ")"), ("bracket-open", "["), ("brace-open", "{"), ("brace-close", "}"),
+    ("brackets-mixed", "(]"),
+    ("backslash", "\\"),
     ("star", "*"), ("minus", "-"), ("minus-minus", "--1"), ("ellipsis", "..."), ("ellipsis-twice", "1...2...3"),
-    ("colon", ":"), ("comma", ","), ("commas", ",,"), ("less", "<"), ("equals", "=="), ("bang", "!"),
-    ("percent", "%"), ("percent-s", "%s"), ("at", "@"), ("dollar", "$"), ("hash", "#x"), ("semicolon", ";"),
-    ("dot", "."), ("question", "?"), ("pipe", "|"),
-    ("nul", "\x00"), ("nul-inside", "a\x00b"), ("tab", "\t"), ("tab-indent", "\tx"), ("line-break-indent", "a\n  b"),
-    ("indent-dedent", "  a\n b"), ("crlf", "a\r\nb"), ("lf", "\n"), ("cr", "\r"),
+    ("colon", ":"), ("comma", ","), ("commas", ",,"), ("less", "<"), ("percent", "%"), ("hash", "#x"),
+    ("semicolon", ";"), ("dot", "."),
+    ("nul", "\x00"), ("tab", "\t"), ("tab-indent", "\tx"), ("line-break-indent", "a\n  b"),
+    ("indent-dedent", "  a\n b"), ("crlf", "a\r\nb"), ("lf", "\n"),
     ("huge", "99999999999999999999"), ("huge-negative", "-99999999999999999999"), ("int32", "2147483648"),
     ("negative", "-1"), ("zero", "0"), ("fraction", "1.5"), ("negative-fraction", "-0.5"), ("hex-empty", "0x"),
-    ("hex-huge", "0xFFFFFFFFFFFFFFFFFFFF"), ("underscores", "1__0"), ("underscore", "1_0"), ("octal", "0o9"),
-    ("leading-zero", "007"), ("u-prefix", 'u"x"'), ("b-prefix", 'b"x"'), ("f-prefix", 'f"{x}"'), ("r-prefix", 'r"\\"'),
-    ("letter", "ä"), ("word", "größe"), ("cjk", "中"), ("arabic-digit", "٣"),
-    ("fullwidth-digits", "１２"), ("superscript", "²"), ("astral", "\U0001f600"), ("nbsp", " "),
-    ("nan", "NaN"), ("infinity", "Infinity"), ("negative-infinity", "-Infinity"), ("snan", "sNaN"), ("exp-huge", "1e999"),
-    ("exp-tiny", "1e-999"),
+    ("hex-huge", "0xFFFFFFFFFFFFFFFFFFFF"), ("underscores", "1__0"), ("leading-zero", "007"),
+    ("u-prefix", 'u"x"'), ("f-prefix", 'f"{x}"'),
+    ("letter", "\u00e4"), ("cjk", "\u4e2d"), ("arabic-digit", "\u0663"), ("superscript", "\u00b2"),
+    ("astral", "\U0001f600"), ("nbsp", "\u00a0"),
+    ("nan", "NaN"), ("infinity", "Infinity"), ("snan", "sNaN"), ("exp-huge", "1e999"),
     ("long", LONG),
-    ("date-dd-dd", "DD.DD"), ("date-yyyy-yyyy", "YYYY-YYYY"), ("date-hh-hh", "hh:hh"), ("date-full-twice", "DD.MM.YYYY DD"),
-    ("date-directive", "%d.%d"),
+    ("date-dd-dd", "DD.DD"), ("date-hh-hh", "hh:hh"), ("date-directive", "%d.%d"),
     ("re-star", "*a"), ("re-range", "[z-a]"), ("re-quantifier", "a{2,1}"), ("re-names", "(?P<n>a)(?P<n>b)"),
-    ("re-backref", "\\1"), ("re-lookbehind", "(?<=a+)b"), ("re-flag", "(?i"), ("re-multiple", "a**"),
-    ("codec-hex", "hex"), ("codec-rot13", "rot13"), ("codec-base64", "base64"), ("codec-undefined", "undefined"),
+    ("re-backref", "\\1"), ("re-flag", "(?i"), ("re-repeat-huge", "a{99999999999999999999}"),
+    ("codec-hex", "hex"), ("codec-rot13", "rot13"), ("codec-undefined", "undefined"),
     ("field-name", "customer_id"), ("field-names", "customer_id, customer_id"), ("keyword", "class"),
-    ("type-name", "Integer"), ("type-dotted", "fields.Integer"), ("check-name", "IsUnique"), ("none", "None"),
+    ("type-name", "Integer"), ("type-dotted", "fields.Integer"), ("check-name", "IsUnique"),
 ]
 POOL_NAMES = [name for name, _ in POOL]
 assert len(set(POOL_NAMES)) == len(POOL_NAMES)
@@ -188,7 +189,17 @@ def table_for(fmt, kind="unicode"):
     ]
 
 
+_BASE_ROWS = {}
+
+
 def base_rows(fmt):
+    """A fresh copy of the rows of the base CID for ``fmt``."""
+    if fmt not in _BASE_ROWS:
+        _BASE_ROWS[fmt] = _base_rows(fmt)
+    return [list(row) for row in _BASE_ROWS[fmt]]
+
+
+def _base_rows(fmt):
     rows = [list(row) for row in _PROPERTY_ROWS[fmt]]
     rows.append(["", "a comment row", "", ""])
     example = table_for(fmt)[1]
@@ -417,7 +428,9 @@ def env():
 @contextlib.contextmanager
 def scratch_root():
     previous = _ROOT[0]
-    root = tempfile.mkdtemp(prefix="c10-")
+    # tens of thousands of small files are written: prefer the memory file system when there is one
+    shm = "/dev/shm"
+    root = tempfile.mkdtemp(prefix="c10-", dir=shm if os.path.isdir(shm) and os.access(shm, os.W_OK | os.X_OK) else None)
     _ROOT[0] = root
     try:
         yield root
@@ -431,19 +444,30 @@ class _Timeout(BaseException):
     pass
 
 
+_ARMED = [False]
+
+
 def _on_alarm(signum, frame):
-    raise _Timeout()
+    if _ARMED[0]:
+        raise _Timeout()
 
 
-@contextlib.contextmanager
-def _time_limit(seconds=TIME_LIMIT_S):
-    previous = signal.signal(signal.SIGALRM, _on_alarm)
-    signal.setitimer(signal.ITIMER_REAL, seconds)
-    try:
-        yield
-    finally:
-        signal.setitimer(signal.ITIMER_REAL, 0)
-        signal.signal(signal.SIGALRM, previous)
+def _arm():
+    """Start the per-case time limit. The timer repeats, so a _Timeout swallowed somewhere (for example inside a
+    garbage collector callback) is raised again shortly afterwards."""
+    signal.signal(signal.SIGALRM, _on_alarm)
+    _ARMED[0] = True
+    signal.setitimer(signal.ITIMER_REAL, TIME_LIMIT_S, 0.2)
+
+
+def _disarm():
+    while True:
+        try:
+            _ARMED[0] = False
+            signal.setitimer(signal.ITIMER_REAL, 0)
+            return
+        except _Timeout:
+            continue
 
 
 @contextlib.contextmanager
@@ -579,11 +603,11 @@ def _write_rows(obs, cid, table):
         writer.close()
 
 
-def data_stages(obs, fmt, cid_rows, cid, path, text=None, table=None):
-    """Write ``table`` (delimited, fixed; under a CID of its own because a writer does not reset the checks) and
-    read ``path`` / ``text`` under the CID made of ``cid_rows``."""
+def data_stages(obs, fmt, cid, path, text=None, table=None):
+    """Write ``table`` (delimited, fixed) with the freshly loaded ``cid`` - first, because a writer need not reset the
+    checks a reader has used - then read ``path`` / ``text`` under it."""
     if fmt in ("delimited", "fixed") and table is not None:
-        obs.stage("write", errors.DataError, lambda: _write_rows(obs, load_cid(cid_rows), table))
+        obs.stage("write", errors.DataError, lambda: _write_rows(obs, cid, table))
     obs.stage("read", errors.DataError, lambda: list(cutplace.rows(cid, path)))
     ok, outputs = obs.stage("read", errors.DataError, lambda: list(cutplace.rows(cid, path, on_error="yield")))
     if ok:
@@ -631,11 +655,16 @@ def _take_sample():
 
 def _observe(function):
     obs = Observation()
-    try:
-        with _quiet(), _time_limit():
-            function(obs)
-    except _Timeout:
-        obs.timeout = True
+    with _quiet():
+        try:
+            try:
+                _arm()
+                function(obs)
+            finally:
+                _disarm()
+        except _Timeout:
+            _disarm()
+            obs.timeout = True
     return obs
 
 
@@ -670,7 +699,7 @@ def observe_cid(fmt, subs):
                 text = delimited_text(table_for(fmt))
             elif fmt == "fixed":
                 text = fixed_text(table_for(fmt))
-            data_stages(obs, fmt, rows, cid, scratch.valid[fmt], text, table_for(fmt))
+            data_stages(obs, fmt, cid, scratch.valid[fmt], text, table_for(fmt))
         main_stage(obs, scratch.write_cid("case-cid.csv", rows), scratch.valid[fmt])
 
     return _observe(run), state
@@ -695,10 +724,10 @@ def check_cid_case(sub, case):
     if len(subs) > 1:
         label = "+".join(sorted(labels))
         if obs.problems:
-            # attribute to a single cell when that cell alone shows the same problem
+            # attribute to a single cell when that cell alone shows the same problem (exception type and frame)
             for single, single_label in zip(subs, labels):
                 single_obs, _ = observe_cid(fmt, [single])
-                if set(p[:3] for p in obs.problems) <= set(p[:3] for p in single_obs.problems):
+                if set(p[1:3] for p in obs.problems) <= set(p[1:3] for p in single_obs.problems):
                     label = single_label
                     break
     part = "cid-%d" % len(subs)
@@ -759,7 +788,7 @@ def check_data_case(sub, case):
         ok, cid = obs.stage("cid-load", errors.InterfaceError, lambda: load_cid(rows))
         if not ok:
             raise HarnessError("base CID %s does not load: %r" % (fmt, cid))
-        data_stages(obs, fmt, rows, cid, path, text, table if variant in ("quoted", "fit") else None)
+        data_stages(obs, fmt, cid, path, text, table if variant in ("quoted", "fit") else None)
         main_stage(obs, scratch.cid_paths[fmt], path)
 
     obs = _observe(run)
@@ -779,8 +808,8 @@ def check_data_case(sub, case):
 
 
 # -- undecodable bytes -----------------------------------------------------------------------------------------------------
-BYTE_ENCODINGS = [("utf-8", "unicode"), ("utf-8", "ascii"), ("ascii", "ascii"), ("cp1252", "ascii"), ("utf-16", "ascii")]
-FAULT_BYTES = [0xFF, 0x80, 0x81, 0xC3]
+BYTE_ENCODINGS = [("utf-8", "unicode"), ("ascii", "ascii"), ("cp1252", "ascii"), ("utf-16", "ascii")]
+FAULT_BYTES = [0xFF, 0x81, 0xC3]
 
 
 def _encoded_data(fmt, encoding, kind):
@@ -828,7 +857,7 @@ def check_bytes_case(sub, case):
         ok, cid = obs.stage("cid-load", errors.InterfaceError, lambda: load_cid(rows))
         if not ok:
             raise HarnessError("CID %s with encoding %s does not load: %r" % (fmt, encoding, cid))
-        data_stages(obs, fmt, rows, cid, path)
+        data_stages(obs, fmt, cid, path)
         main_stage(obs, cid_path, path)
 
     obs = _observe(run)
@@ -894,7 +923,7 @@ def check_container_case(sub, case):
         ok, cid = obs.stage("cid-load", errors.InterfaceError, lambda: load_cid(rows))
         if not ok:
             raise HarnessError("base CID %s does not load: %r" % (fmt, cid))
-        data_stages(obs, fmt, rows, cid, path)
+        data_stages(obs, fmt, cid, path)
         main_stage(obs, cid_path, path)
 
     obs = _observe(run)
@@ -917,6 +946,18 @@ def single_cell_cases():
         for r, c in cells_of(fmt):
             for value in values_for(fmt, r, c):
                 yield {"kind": "cid", "format": fmt, "subs": [{"row": r, "col": c, "value": enc_value(value)}]}
+
+
+def cleared_example_cases():
+    """Rule and length cells once more with the example of the row removed (otherwise nearly every hostile rule is
+    refused only because the example no longer fits, and the data stages never see it)."""
+    for fmt in FORMATS:
+        rows = base_rows(fmt)
+        for r, c in cells_of(fmt):
+            if rows[r][0] == "F" and _COLUMNS["F"][c - 1] in ("length", "rule") and rows[r][2] != "":
+                for value in values_for(fmt, r, c):
+                    yield {"kind": "cid", "format": fmt, "subs": [{"row": r, "col": 2, "value": ""},
+                                                                   {"row": r, "col": c, "value": enc_value(value)}]}
 
 
 def data_cell_cases():
@@ -952,6 +993,20 @@ def truncation_cases(sizes):
         stride = 1 if size < 2048 else 64
         for offset in range(0, size, stride):
             yield {"kind": "container", "source": source, "fault": "truncate", "offset": offset, "bit": 0}
+
+
+def directory_bitflip_cases(sizes):
+    """Every bit of the region where one flipped bit derails the whole container: the last 128 bytes of the zip based
+    files (central directory and its end record), the first 80 bytes of .xls files (compound document header)."""
+    for source in sorted(sizes):
+        size = sizes[source]
+        if _container_kind(source) == "xls":
+            offsets = range(0, min(80, size))
+        else:
+            offsets = range(max(0, size - 128), size)
+        for offset in offsets:
+            for bit in range(8):
+                yield {"kind": "container", "source": source, "fault": "bitflip", "offset": offset, "bit": bit}
 
 
 CHECKERS = {"cid": check_cid_case, "data": check_data_case, "bytes": check_bytes_case,
@@ -1031,8 +1086,8 @@ def run(ctx):
         scratch = env()
         for source in container_sources():
             sizes[source] = len(scratch.container_bytes(source))
-        cases = list(single_cell_cases()) + list(data_cell_cases()) + list(bytes_cases()) + list(
-            truncation_cases(sizes))
+        cases = (list(single_cell_cases()) + list(cleared_example_cases()) + list(data_cell_cases())
+                 + list(bytes_cases()) + list(truncation_cases(sizes)) + list(directory_bitflip_cases(sizes)))
         shards = max(1, ctx.workers * 4)
 
         def shard(index):
